@@ -2,7 +2,7 @@
 Decision-tree exploration: the scripted generator sees the bound of every request, so ALL answer sequences of a call on a
 small design are enumerated; each leaf has probability prod(1/bound).  The leaves are (i) compared with the Gallina model
 (exhaustive correspondence over the tape space) and (ii) counted: every admissible outcome must occur equally often."""
-import itertools, json, math
+import random, itertools, json, math
 from fractions import Fraction
 from collections import Counter
 import numpy as np
@@ -131,6 +131,14 @@ def cases(tier, rng, dist):
             dist.add("design", "sequence")
             yield {"d": "seq", "f": "seq", "steps": steps, "data": [rng.randint(-4, 4) for _ in range(2 * n)], "n": n, "reps": rng.randint(2, 3), "gen": gen,
                    "seed": rng.randint(0, 10**6), "aseed": rng.randint(0, 10**9), "keep": rng.random() < 0.5}
+    # a generator instance shared by an Experiment's Randomizer and another holder; two Experiments in alternation (c17's cases):
+    # "successive randomizations are independent ... for each supported generator type"
+    from . import c17 as _c17
+    for cc in _c17.cases(tier, random.Random(rng.randint(0, 10**9)), Dist()):
+        if isinstance(cc, dict) and cc.get("f") in ("sharedgen", "interleave"):
+            dist.add("design", cc["f"])
+            cc = dict(cc); cc["d"] = "exp"
+            yield cc
     from .. import sizes
     ns = [259, 300, 515] + [v for v in sizes.beyond(["core", "utils", "ksample"], cap=6000) if v >= 40]
     for k, n in enumerate(ns[:12] if tier == "quick" else ns[:40]):
@@ -160,6 +168,9 @@ def run(c):
     if d == "seq":
         from ..core_runs import run_seq
         return run_seq(c)
+    if d == "exp":
+        from . import c17 as _c17
+        return _c17.run(c)
     if d == "permute":
         x = np.array(c["x"], dtype=float)
         leaves = explore(lambda t: tuple(float(v) for v in utils.permute(x, t)))
@@ -317,6 +328,9 @@ def oracle(c, o):
     if d == "seq":
         from ..core_runs import oracle_seq
         return oracle_seq(c, o)
+    if d == "exp":
+        from . import c17 as _c17
+        return _c17.oracle(c, o)
     if d == "rs_structure":
         want = {"two_sample": [["shuffle", 7]] * 2, "one_sample": [["randint", 0, 2, 3]] * 2, "permute": [["random", 4]],
                 "pwg": [["random", 2], ["random", 3]]}
@@ -449,7 +463,7 @@ def to_coq(c, o):
 
 def extra_terms(c, o):
     d = c["d"]; out = []
-    if d in ("seed_kinds", "coverage", "seq"):
+    if d in ("seed_kinds", "coverage", "seq", "exp"):
         return out
     if d == "permute":
         x = [Fraction(v) for v in c["x"]]
@@ -473,7 +487,7 @@ def extra_terms(c, o):
 
 
 def nontrivial(c, o):
-    return c["d"] in ("rs_structure", "seed_kinds", "coverage", "seq") or len(o.get("outcomes", [])) > 1
+    return c["d"] in ("rs_structure", "seed_kinds", "coverage", "seq", "exp") or len(o.get("outcomes", [])) > 1
 
 
 def key(c):
